@@ -26,7 +26,7 @@ RULE = ("cases = (callable or syntax template, argument tuple from the hostile p
 ASSUMPTIONS = ["resource exhaustion (allocation budget 96 MiB, RLIMIT_AS, CPU watchdog 1.5 s/call quick, 4 s thorough) bounds the exploration and is inconclusive",
                "a call with only finite arguments that burns 10^6 evaluation ticks is a logical hang"]
 PLAN = {
-    "quick": {"pairs_per_callable": 60, "quick_pool": True, "triples_per_callable": 30, "templates": 1, "inject": 250, "programs": 6000, "shards": 71},
+    "quick": {"pairs_per_callable": 40, "quick_pool": True, "triples_per_callable": 20, "templates": 1, "inject": 250, "programs": 4000, "shards": 71},
     "thorough": {"pairs_per_callable": 100000, "triples_per_callable": 4000, "templates": 6, "inject": 6000, "programs": 200000, "shards": 142},
 }
 
@@ -58,6 +58,9 @@ TEMPLATES = [
     ("str_elem_assign", "x := \"hello\"; x[1] = {a}; x", 1), ("bytes_elem_assign", "x := B[1, 2, 3]; x[1] = {a}; x", 1),
     ("vec_elem_assign", "x := V(1, 2, 3); x[1] = {a}; x", 1), ("str_elem_assign_at", "x := \"héllo\"; x[{a}] = \"Z\"; x", 1),
     ("str_elem_opassign", "x := \"hello\"; x[1] $= {a}; x", 1),
+    ("adv_index", "(stream({a}) drop 1)[{b}]", 2), ("adv_tail_index", "tail(stream({a}))[{b}]", 2), ("adv_last", "last(stream({a}) drop {b})", 2),
+    ("slice_then_index", "({a}[1:])[{b}]", 2), ("drop_then_index", "({a} drop 1)[{b}]", 2), ("slice_then_slice", "({a}[1:])[{b}:{c}]", 3),
+    ("drop_then_last", "last({a} drop {b})", 2), ("uncons_then_index", "(uncons(stream({a})))[1][{b}]", 2),
     ("pop", "x := {a}; pop x", 1), ("pop_idx", "x := {a}; pop x[{b}]", 2), ("remove", "x := {a}; remove x[{b}]", 2),
     ("remove_slice", "x := {a}; remove x[{b}:{c}]", 3), ("consume", "x := {a}; consume x", 1),
     ("consume_idx", "x := {a}; consume x[{b}]", 2),
@@ -389,8 +392,7 @@ def shard(ctx, si, n):
     r = core.rng_for("C14", ctx.seed, si)
     w = core.Worker(cpu_budget=1.5 if ctx.tier == "quick" else 4.0)
     try:
-        names = sorted(x["name"] for x in w.run({"id": "n", "kind": "names"})["result"]["names"]
-                       if x["kind"] in ("builtin", "type"))
+        names = sorted(x["name"] for x in core.global_names(w) if x["kind"] in ("builtin", "type"))
         callables = [x for x in names if x not in pool.EXCLUDED]
         sh.count("callables_total", 0)
         # canonical values of the pool variables in an untouched environment
@@ -442,7 +444,8 @@ def shard(ctx, si, n):
                 combos = [[a] for a in P]
             else:
                 combos = [[r.choice(P) for _ in range(ar)] for _ in range(60 * reps)]
-                if ar == 2 and reps > 1:
+                if ar == 2:
+                    # two-operand templates: all pairs over the reduced pool in every tier
                     combos += [[a, b] for a in pool.QUICK for b in pool.QUICK]
             for args in combos:
                 batch.append((fill(r, tmpl, args), list(args), "tmpl:" + tname))
